@@ -266,4 +266,20 @@ static inline long it_distance(it_t a, it_t b) { return b - a; }
     } \
     return first; }
 
+/* std::upper_bound(first, last, val, comp) over an element-pointer range,
+ * libstdc++'s bisection (bits/stl_algo.h __upper_bound): first position p with
+ * comp(val, *p).  Precondition (range partitioned w.r.t. comp(val, .)) is an
+ * obligation stated where it is used. */
+#define DEF_UPPER_BOUND_PTR(NAME, T, V, CLO, COMP) \
+  static T *NAME(T *first, T *last, V val, CLO *comp) { \
+    long len = last - first; \
+    while (len > 0) { \
+      long half = len >> 1; \
+      T *mid = first + half; \
+      if (COMP(comp, val, mid)) len = half; \
+      else { first = mid + 1; len = len - half - 1; } \
+    } \
+    return first; }
+
 #endif
+
